@@ -12,7 +12,7 @@ def run(chk, replay=None):
         rp = vcheck.Replayer(vcheck.ensure_build('plain'), seed=chk.seed)
         file_common.replay_one(chk, rp, replay)
         return
-    cfgs = ['c09a_' + t, 'c09b_' + t]
+    cfgs = ['c09a_' + t, 'c09b_' + t, 'c09c_' + t]
     sims = []
     def judge(r):
         steps = r['pre'] + [r['step']]
